@@ -395,9 +395,15 @@ fn write_crate(dir: &Path, cases: &[&ProbeCase]) -> std::io::Result<()> {
     }
     // big arrays of big items live on the stack of an unoptimised build: give it room
     main.push_str("fn main() { std::thread::Builder::new().stack_size(4usize << 30).spawn(real_main).unwrap().join().unwrap(); }\n");
-    main.push_str("fn real_main() { let mut bad = 0u32;\n");
+    // an optional argument restricts the run to one case; the case being run is announced on stderr, so that a
+    // death without verdict can be attributed
+    main.push_str("fn real_main() { let only = std::env::args().nth(1); let mut bad = 0u32;\n");
     for c in cases {
-        let _ = writeln!(main, " {}::run(&mut bad);", c.name);
+        let _ = writeln!(
+            main,
+            " if only.as_deref().map(|o| o == \"{0}\").unwrap_or(true) {{ eprintln!(\"CASE {0}\"); {0}::run(&mut bad); }}",
+            c.name
+        );
     }
     main.push_str(" println!(\"DONE bad={bad}\"); }\n");
     std::fs::write(dir.join("src").join("main.rs"), main)
@@ -494,10 +500,17 @@ pub fn run_batch(tag: &str, cases: &[ProbeCase], run: bool) -> Result<u64, Failu
             let Some(fail_line) = out.lines().find(|l| l.starts_with("FAIL")).map(|l| l.to_string()) else {
                 // the binary died without reporting a comparison (stack overflow, OOM, signal): that
                 // is trouble of the probe, never a statement about the generated types
+                let last_case = out.lines().filter(|l| l.starts_with("CASE ")).last().unwrap_or("").to_string();
+                if std::env::var("VERIF_KEEP_PROBE").is_ok() {
+                    let keep = verif_dir().join("replays").join(format!("probe-crate-died-{tag}"));
+                    let _ = std::fs::remove_dir_all(&keep);
+                    let _ = std::fs::rename(&dir, &keep);
+                    eprintln!("probe crate kept at {} (last {last_case})", keep.display());
+                }
                 let _ = std::fs::remove_dir_all(&dir);
                 return Err(Failure::infra(format!(
-                    "probe binary died without a verdict: {}",
-                    out.chars().take(400).collect::<String>()
+                    "probe binary died without a verdict (last {last_case}): {}",
+                    out.lines().filter(|l| !l.starts_with("CASE ")).collect::<Vec<_>>().join(" ").chars().take(400).collect::<String>()
                 )));
             };
             // FAIL <case>:<id> ...
@@ -579,6 +592,84 @@ fn passes_has_compact_param(gm: &crate::genmod::GMod) -> bool {
     req.iter().any(|r| !direct.contains(r))
 }
 
+/// Upper estimate of `size_of` of the generated type for a registry type: arrays are stored inline, so nested
+/// arrays of nested generic instantiations multiply (`Option<[[Call<Call<Cow>>; 33]; 33]>` ...) and a value of such a
+/// type does not fit on any stack although the type compiles. Heap types count as three words.
+pub fn mem_size(reg: &PortableRegistry, id: u32, depth: usize) -> u128 {
+    if depth > 48 {
+        return 8;
+    }
+    let Some(ty) = reg.resolve(id) else { return 8 };
+    let field = |f: &scale_info::Field<scale_info::form::PortableForm>| -> u128 {
+        if f.type_name.as_deref().map(|n| n.contains("Box<")).unwrap_or(false) {
+            8
+        } else {
+            mem_size(reg, f.ty.id, depth + 1)
+        }
+    };
+    let first = ty.path.segments.first().map(|s| s.as_str()).unwrap_or("");
+    let prelude = ty.path.segments.len() == 1;
+    match &ty.type_def {
+        TypeDef::Primitive(p) => match crate::lower::def_prim(p).width() {
+            Some(w) => w as u128,
+            None => 24,
+        },
+        TypeDef::Compact(c) => mem_size(reg, c.type_param.id, depth + 1),
+        TypeDef::Sequence(_) => 24,
+        TypeDef::BitSequence(_) => 32,
+        TypeDef::Array(a) => (a.len as u128).saturating_mul(mem_size(reg, a.type_param.id, depth + 1)),
+        TypeDef::Tuple(t) => t.fields.iter().fold(0u128, |acc, f| acc.saturating_add(mem_size(reg, f.id, depth + 1))),
+        TypeDef::Composite(_) if prelude && matches!(first, "BTreeMap" | "BTreeSet" | "BinaryHeap") => 24,
+        TypeDef::Composite(c) => c.fields.iter().fold(0u128, |acc, f| acc.saturating_add(field(f))).saturating_add(8),
+        TypeDef::Variant(v) => v
+            .variants
+            .iter()
+            .map(|v| v.fields.iter().fold(0u128, |acc, f| acc.saturating_add(field(f))))
+            .max()
+            .unwrap_or(0)
+            .saturating_add(8),
+    }
+}
+
+/// ids from which a type whose value does not fit (see `mem_size`) is reachable at all: decoding such an id may
+/// build the big value on the stack even when it sits behind a Vec or a Box
+pub fn reaches_oversized(reg: &PortableRegistry, limit: u128) -> std::collections::BTreeSet<u32> {
+    let big: std::collections::BTreeSet<u32> = reg.types.iter().filter(|t| mem_size(reg, t.id, 0) > limit).map(|t| t.id).collect();
+    let mut out = std::collections::BTreeSet::new();
+    if big.is_empty() {
+        return out;
+    }
+    let refs = |id: u32| -> Vec<u32> {
+        let Some(t) = reg.resolve(id) else { return vec![] };
+        let mut v: Vec<u32> = t.type_params.iter().filter_map(|p| p.ty.map(|x| x.id)).collect();
+        match &t.type_def {
+            TypeDef::Composite(c) => v.extend(c.fields.iter().map(|f| f.ty.id)),
+            TypeDef::Variant(x) => v.extend(x.variants.iter().flat_map(|x| x.fields.iter().map(|f| f.ty.id))),
+            TypeDef::Sequence(x) => v.push(x.type_param.id),
+            TypeDef::Array(x) => v.push(x.type_param.id),
+            TypeDef::Tuple(x) => v.extend(x.fields.iter().map(|f| f.id)),
+            TypeDef::Compact(x) => v.push(x.type_param.id),
+            TypeDef::BitSequence(_) | TypeDef::Primitive(_) => {}
+        }
+        v
+    };
+    for t in &reg.types {
+        let mut seen = std::collections::BTreeSet::new();
+        let mut stack = vec![t.id];
+        while let Some(i) = stack.pop() {
+            if !seen.insert(i) {
+                continue;
+            }
+            if big.contains(&i) {
+                out.insert(t.id);
+                break;
+            }
+            stack.extend(refs(i));
+        }
+    }
+    out
+}
+
 /// does a `DecodedBits<store, order>` in the (space-free) tokens name a generic parameter `_n`?
 fn generic_bits(tokens: &str) -> bool {
     let mut rest = tokens;
@@ -651,6 +742,7 @@ fn standalone(
     let settings = spec.build();
     let mut items = String::new();
     let mut checks = vec![];
+    let oversized = reaches_oversized(reg, 256 << 10);
     let build = |name: &str, fields: &[scale_info::Field<scale_info::form::PortableForm>]| -> Option<String> {
         guard(|| {
             let g = scale_typegen::TypeGenerator::new(reg, &settings);
@@ -671,6 +763,9 @@ fn standalone(
             continue;
         }
         let ty = reg.resolve(*kept_id)?;
+        if oversized.contains(kept_id) {
+            continue;
+        }
         let encs = valid_encodings(reg, *kept_id, seed, encodings.max(6));
         match &ty.type_def {
             TypeDef::Composite(c) if !c.fields.is_empty() => {
@@ -779,10 +874,16 @@ pub fn make_cases_ext(seed: u64, stream: u64, n: usize, cf_only: bool, encodings
         }
         let settings = spec.build();
         let mut checks = vec![];
+        let oversized = reaches_oversized(&reg, 256 << 10);
         if encodings > 0 {
             for ty in &reg.types {
                 let encs = valid_encodings(&reg, ty.id, mix(&[seed, k]), encodings);
                 if encs.is_empty() {
+                    continue;
+                }
+                // a value of the type (and of everything decoded on the way) has to fit on the probe's stack many times over
+                if oversized.contains(&ty.id) {
+                    *counters.entry("byte_checks_skipped_value_larger_than_256k".into()).or_insert(0) += 1;
                     continue;
                 }
                 if let Ok(Ok(toks)) = resolve_tokens(&reg, &settings, ty.id) {
